@@ -2,6 +2,7 @@
 // writes the `<op> => <observation>` trace judged by the Lean model and the C11 monitor.
 //
 //	scatter <region> <group> seed=<n> [want=<orders>]  => stores=… guard=… order=…/… lorder=… | <result>
+//	put <group> <leader store> <stores +>              => ok   (RegionScatterer.Put: an earlier decision)
 //	counters                                           => the scatterer's history counters
 //	sched <type> [<store>]                             => <ops proposed by Schedule, `;;`-separated> | none
 //
@@ -18,6 +19,7 @@ import (
 	"strconv"
 	"strings"
 
+	"github.com/pingcap/kvproto/pkg/metapb"
 	"github.com/tikv/pd/pkg/mock/mockcluster"
 	"github.com/tikv/pd/server/core"
 	"github.com/tikv/pd/server/kv"
@@ -372,6 +374,32 @@ func (w *world) exec(op string) (string, string) {
 			return "-", op
 		}
 		return strings.Join(c, " "), op
+	case "put":
+		// put <group> <leader store> <stores +>: RegionScatterer.Put, an earlier scatter decision of the group
+		if len(f) != 4 {
+			return "bad-op", op
+		}
+		if err := w.rebuild(); err != nil {
+			return "err:" + strings.ReplaceAll(err.Error(), " ", "_"), op
+		}
+		group := f[1]
+		if group == "-" {
+			group = ""
+		}
+		leader, _ := strconv.ParseUint(f[2], 10, 64)
+		peers := map[uint64]*metapb.Peer{}
+		for _, x := range strings.Split(f[3], "+") {
+			id, err := strconv.ParseUint(x, 10, 64)
+			if err != nil || w.rc.Cluster.GetStore(id) == nil {
+				return "unknown-store", op
+			}
+			if !filter.NewOrdinaryEngineFilter("verif").Target(w.rc.GetOpts(), w.rc.Cluster.GetStore(id)) {
+				return "special-store", op // Put needs the engine context scatterRegion creates: not exercised
+			}
+			peers[id] = &metapb.Peer{StoreId: id}
+		}
+		w.scatterer.Put(peers, leader, group)
+		return "ok", op
 	case "scatter":
 		if len(f) < 3 {
 			return "bad-op", op
@@ -383,7 +411,11 @@ func (w *world) exec(op string) (string, string) {
 		}
 		var seed uint64
 		want := ""
+		dry := false
 		for _, t := range f[3:] {
+			if t == "dry=1" {
+				dry = true
+			}
 			if strings.HasPrefix(t, "seed=") {
 				seed, _ = strconv.ParseUint(t[5:], 10, 64)
 			}
@@ -391,7 +423,16 @@ func (w *world) exec(op string) (string, string) {
 				want = t[5:]
 			}
 		}
+		var before []string
+		if dry {
+			before = w.scatterer.VerifScatterCounters()
+		}
 		obs, observed := w.scatter(rid, group, seed, want)
+		if dry {
+			// a dry scatter leaves the history as it was: the same decision can be taken again with another
+			// map iteration order
+			w.scatterer.VerifScatterRestore(before)
+		}
 		if want == "" && observed != "" {
 			op = op + " want=" + observed
 		}
@@ -573,12 +614,17 @@ func gen(w *world, t *trace.W, r *rng.R, malformed bool) {
 		w.run(t, fmt.Sprintf("store %d st=%d down=%d busy=%d pause=%d cap=1099511627776 avail=%d rc=%d lc=%d rsize=%d lsize=%d labels=%s",
 			i, st, down, busy, pause, uint64(1099511627776)/128*uint64(pickInt(r, 40, 64, 100, 120)), rc, rc/3, rc*96, rc*32, l))
 	}
-	withLearner := false
+	withLearner := false // a learner on a TiFlash store (rule constrained to the engine)
+	ordLearner := false  // a learner on an ordinary store (unconstrained learner rule)
 	if rules == 1 {
 		w.run(t, fmt.Sprintf("rule pd/default role=voter count=%d cons=- labels=%s level=-", maxrep, ls))
-		if len(tiflash) > 0 && r.Bool(2, 3) {
+		switch {
+		case len(tiflash) > 0 && r.Bool(2, 3):
 			w.run(t, "rule tiflash/learner role=learner count=1 cons=engine:in:tiflash labels=- level=-")
 			withLearner = true
+		case len(ordinary) > maxrep && r.Bool(1, 2):
+			w.run(t, "rule pd/learner role=learner count=1 cons=- labels=- level=-")
+			ordLearner = true
 		}
 	}
 	// regions
@@ -610,6 +656,10 @@ func gen(w *world, t *trace.W, r *rng.R, malformed bool) {
 			rs.nextID++
 			rs.peers = append(rs.peers, pdcluster.Peer{ID: rs.nextID, Store: tiflash[r.Intn(len(tiflash))], Role: 1})
 		}
+		if ordLearner && cnt < len(perm) {
+			rs.nextID++
+			rs.peers = append(rs.peers, pdcluster.Peer{ID: rs.nextID, Store: perm[cnt], Role: 1})
+		}
 		// the leader is a voter (a learner cannot lead); none when the region has no voter
 		for _, p := range rs.peers {
 			if p.Role == 0 {
@@ -624,9 +674,57 @@ func gen(w *world, t *trace.W, r *rng.R, malformed bool) {
 		w.run(t, rs.line())
 	}
 	groups := []string{"g1", "g1", "g2", "-"}
+	// a history of earlier decisions: sometimes one store of a region (its last peer: the learner when
+	// there is one) was left out every time, so that it is the only store below the maximum
+	if r.Bool(1, 2) && len(regions) > 0 {
+		rs := regions[r.Intn(len(regions))]
+		if len(rs.peers) > 0 {
+			skip := rs.peers[len(rs.peers)-1].Store
+			if r.Bool(1, 3) {
+				skip = rs.peers[r.Intn(len(rs.peers))].Store
+			}
+			var rest []uint64
+			for _, i := range ordinary {
+				if i != skip {
+					rest = append(rest, i)
+				}
+			}
+			g := pick(r, groups)
+			for k := r.Range(1, 4); k > 0 && len(rest) > 0; k-- {
+				// the store that got no peer often got the leaders (so it is not the least loaded leader store)
+				leader := rest[r.Intn(len(rest))]
+				if r.Bool(2, 3) {
+					leader = skip
+				}
+				w.run(t, fmt.Sprintf("put %s %d %s", g, leader, joinU(rest)))
+			}
+			// and the region in question is scattered right away, a few times with the history kept
+			for k := r.Range(1, 3); k > 0; k-- {
+				w.run(t, fmt.Sprintf("scatter %d %s seed=%d dry=1", rs.id, g, r.Intn(1000000)))
+			}
+		}
+	}
+	for k := r.Range(0, 3); k > 0; k-- {
+		var some []uint64
+		for _, i := range ordinary {
+			if r.Bool(1, 2) {
+				some = append(some, i)
+			}
+		}
+		if len(some) > 0 {
+			w.run(t, fmt.Sprintf("put %s %d %s", pick(r, groups), some[r.Intn(len(some))], joinU(some)))
+		}
+	}
 	ns := r.Range(4, 14)
 	for k := 0; k < ns; k++ {
 		rs := regions[r.Intn(len(regions))]
+		if r.Bool(1, 4) {
+			// the same decision under other map iteration orders
+			g := pick(r, groups)
+			for j := r.Range(1, 3); j > 0; j-- {
+				w.run(t, fmt.Sprintf("scatter %d %s seed=%d dry=1", rs.id, g, r.Intn(1000000)))
+			}
+		}
 		obs := w.run(t, fmt.Sprintf("scatter %d %s seed=%d", rs.id, pick(r, groups), r.Intn(1000000)))
 		if i := strings.Index(obs, " | op "); i >= 0 && r.Bool(4, 5) {
 			if rs.applyOp(obs[i:]) {
